@@ -296,8 +296,8 @@ PROPS["C02"] = {
     "trust": VERUS_TRUST + GRAPH_TRUST + [SEAM_NOTE,
         "CompressionSpec::join_test / reduce are deterministic functions of their arguments (join_spec, reduce_spec)",
         "precondition backlinks_ok: whenever a k-mer lists a base leading to a present non-palindromic neighbour, that neighbour lists at least one base on the facing side (the formal content of 'extensions reference only present k-mers'); it makes the panic!(\"unreachable\") branch provably unreachable"],
-    "level_text": "The link predicate of the statement is a machine-checked postcondition of the real CompressFromHash::try_extend_kmer: it returns Unique IF AND ONLY IF the k-mer has exactly one extension on that side, is not a palindrome (unstranded), the (canonicalised) neighbour is in the table and still available, is not a palindrome, has exactly one extension on the facing side and the join predicate accepts; and then names that neighbour, the flipped/unflipped walking direction and the far-side extensions. extend_kmer is proved (with termination) to walk only such links, to remove exactly the seed and the walked k-mers from the available set, and to stop only where the predicate fails (Verus, unbounded, on the extracted bodies). The bodies of build_node's two path loops (rule R15) are proved to add exactly one base - the first resp. last base of the step's k-mer as spelled on the seed's strand - and to fold exactly that k-mer's payload with the caller's reduction.",
-    "level_note": "Partial claim: per-step and per-walk contracts are proved; the whole-run invariant (partition into nodes, maximality after all walks) is not - listed in undecided_clauses. Trusted: Verus/Z3, extractor rules, abstract BoomHashMap2/BitSet contracts, the V<->K seam for k-mer and Exts primitives.",
+    "level_text": "The link predicate of the statement is a machine-checked postcondition of the real CompressFromHash::try_extend_kmer: it returns Unique IF AND ONLY IF the k-mer has exactly one extension on that side, is not a palindrome (unstranded), the (canonicalised) neighbour is in the table and still available, is not a palindrome, has exactly one extension on the facing side and the join predicate accepts; and then names that neighbour, the flipped/unflipped walking direction and the far-side extensions. extend_kmer is proved (with termination) to walk only such links, to remove exactly the seed and the walked k-mers from the available set, and to stop only where the predicate fails (Verus, unbounded, on the extracted bodies). The bodies of build_node's two path loops (rule R15) are proved to add exactly one base - the first resp. last base of the step's k-mer as spelled on the seed's strand - and to fold exactly that k-mer's payload with the caller's reduction. WHOLE RUN (unit buildnode, postcondition graph_post of the real compress_kmers / compress_kmers_with_hash / compress_kmers-from-a-slice): every pair of consecutive k-mers of every output node is joined by such a link (step_rec), and an end k-mer of a node that could still link outwards would link to a k-mer spelled by the same or an earlier node (end_ok) - from which lemma_no_merge proves that two nodes whose facing ends could link to each other are one and the same node.",
+    "level_note": "Partial claim: besides the per-step and per-walk contracts, the whole-run statement of the real compress_kmers (graph_post, see C01) carries the 'only if' direction (every pair of consecutive k-mers of a node is a link) and maximality at the node ends (end_ok; lemma_no_merge: no two output nodes could be merged); the full 'if' for links entering a node at an interior k-mer and uniqueness of the decomposition are not decided - listed in undecided_clauses. Preconditions as for C01 (well-formed table, canonical keys when unstranded, backlinks_ok). Trusted: Verus/Z3, extractor rules, abstract BoomHashMap2/BitSet contracts, the V<->K seam for k-mer and Exts primitives.",
 }
 
 PROPS["C03"] = {
@@ -420,17 +420,18 @@ PROPS["C19"] = {
 PROPS["C20"] = {
     "title": "Exports and persistence are faithful",
     "kani": lambda tier: [],
-    "verus": [("gfalinks", r"^gfa_links$"), ("jsonlinks", r"^DebruijnGraph::(json_links_step|json_last_with_links)$")],
+    "verus": [("gfalinks", r"^(gfa_links|gfa_s_line|DebruijnGraph::gfa_all_nodes|DnaStringSlice::to_dna_string)$"),
+              ("jsonlinks", r"^DebruijnGraph::(json_links_step|json_last_with_links|json_nodes_step)$|^Node::edge_json_step$")],
     "bounded": lambda tier: [],
     "design_ref": "DESIGN.md §6 C20",
     "undecided": [
-        "serde round trips of k-mers, DNA strings, extension sets and graphs (derive output, third-party code), the node objects / link objects / `rest` part of the JSON export, the S lines and the header of the GFA export, byte-level well-formedness of anything written: string / byte-grammar reasoning neither verifier supports - NOT decided",
+        "serde round trips of k-mers, DNA strings, extension sets and graphs (derive output, third-party code), the contents of the node objects and the `rest` part of the JSON export, the header of the GFA export, the composition of node_to_gfa's three parts, byte-level well-formedness of anything written: string / byte-grammar reasoning neither verifier supports - NOT decided",
         "the GFA link clause is decided per node (which adjacencies node u writes); 'every adjacency exactly once over the whole file' follows from it only together with edge symmetry of the graph (if u lists v, v lists u - C03's undecided global symmetry) by the argument written next to must_list in verus/units/gfalinks.rs.tmpl; the exemption for palindromic single-k-mer nodes is not modelled (such a node may list a link twice, which the statement allows)",
         "node_to_gfa as a whole (`w: &mut dyn Write`, the tag closure, `?` on the S line) is outside the Verus subset: the two link loops are a statement range (rule R15), `writeln!` with a declared format string is recorded by rule R19, I/O errors end the function early and nothing is claimed then"],
     "trust": VERUS_TRUST + GRAPH_TRUST + [SEAM_NOTE,
         "core::fmt renders an integer / a string slice argument of writeln! as itself, one line per call (rule R19's line log)",
         "Node::l_edges / r_edges are functions of the graph and the node (edges_of); their relational contract is proved in unit nodesall"],
-    "level_text": "Partial claim, two clauses. (1) JSON export, separators of the \"links\" array: one trip of the links loop of the real DebruijnGraph::to_json_rest (rule R15 loop body; Node::edges_to_json assumed to write the node's links as one group and to say whether it wrote) is proved to follow a node's group with a separator EXACTLY when a later node contributes a group too, and the preceding loop (R15) to compute the last node that has links - so the array has no leading, doubled or trailing comma for any graph, with or without links on the last node (Verus, unbounded). (2) The link clause of the GFA export, per node: the two loops of the real DebruijnGraph::node_to_gfa that write the L lines (rule R15 statement range) are proved to write, in order, exactly one line `L u - v t (K-1)M` for every left edge of u whose target id is >= u and exactly one line `L u + v t (K-1)M` for every right edge whose target id is > u OR which is a right-side hairpin (target u, arriving at u's right end), with t = '+' when the link arrives at v's left end and '-' at its right end - the canonical-emitter rule under which every adjacency, including self-links on either side, is listed exactly once (Verus, unbounded).",
+    "level_text": "Partial claim, two clauses. (1) JSON export, separators of the \"links\" array: one trip of the links loop of the real DebruijnGraph::to_json_rest (rule R15 loop body; Node::edges_to_json assumed to write the node's links as one group and to say whether it wrote) is proved to follow a node's group with a separator EXACTLY when a later node contributes a group too, and the preceding loop (R15) to compute the last node that has links - so the array has no leading, doubled or trailing comma for any graph, with or without links on the last node (Verus, unbounded). Also: one trip of the nodes loop (the node's object, then a separator exactly when another node follows: every node once, in id order) and one trip of the loop of Node::edges_to_json (the link object carries the right source, target and arrival side 'L'/'R', followed by a comma exactly when another edge follows). (2) GFA export: the node loop of write_gfa exports every node exactly once in id order (given node_to_gfa's assumed whole-function behaviour); the S line of a node carries its id and its sequence rendered as ACGT text (to_dna_string proved); and the link clause, per node: the two loops of the real DebruijnGraph::node_to_gfa that write the L lines (rule R15 statement range) are proved to write, in order, exactly one line `L u - v t (K-1)M` for every left edge of u whose target id is >= u and exactly one line `L u + v t (K-1)M` for every right edge whose target id is > u OR which is a right-side hairpin (target u, arriving at u's right end), with t = '+' when the link arrives at v's left end and '-' at its right end - the canonical-emitter rule under which every adjacency, including self-links on either side, is listed exactly once (Verus, unbounded).",
     "level_note": "PARTIAL: only the L lines of the GFA export and the separators of the JSON links array; serde, the rest of the JSON export, S lines and byte-level well-formedness are not decided (see undecided_clauses). Two genuine defects were found by these obligations and repaired (known_findings.json F4, F5).",
 }
 
